@@ -108,6 +108,18 @@ Theorem c14_argument_routing : forall ha g y a i s1 b e,
 Proof. exact aggr_argument_routing. Qed.
 Print Assumptions c14_argument_routing.
 
+(* RAII balance across all source frames: over any run, for every source j and local id x, constructions =
+   destructions + locals of source j still alive; once the aggregate is destroyed (parked with or without in-flight
+   sources, never started, or finished) every local of every source frame was destroyed exactly as often as it was
+   constructed.  (The destruction of all frames is the single step into ADead, after which every op is rejected:
+   AggrProofs.aggr_dead_rejects.) *)
+Theorem c14_raii_balance : forall ha ops j x,
+  let r := run_from ha agg0 ops in
+  ccount (is_ctor x) j (all_sevents (fst r)) = ccount (is_dtor x) j (all_sevents (fst r)) + gcount x (srcs (snd r)) j /\
+  (ast (snd r) = ADead -> ccount (is_ctor x) j (all_sevents (fst r)) = ccount (is_dtor x) j (all_sevents (fst r))).
+Proof. exact aggr_raii_balance. Qed.
+Print Assumptions c14_raii_balance.
+
 (* non-vacuity: three sources (one suspending, one throwing) built through the ops, read to the end: the state reached
    by the Source/Build ops is build_state, the union is delivered, the exception comes last *)
 Example c14_nonvacuous :
